@@ -106,10 +106,14 @@ def spec_mutants(ctx, props, workers=6, timeout=None):
         ov["Mut"] = '"%s"' % name
         res = family(ctx, cfg, workers=workers, timeout=timeout or to, overrides=ov, tag="mut-" + name)
         return dict(mutant=name, cfg=cfg, guard_of=prop, refuted_by=res.violated, timed_out=res.timed_out,
-                    states=res.distinct, wall_s=round(res.wall, 1))
+                    states=res.distinct, wall_s=round(res.wall, 1), completed=bool(res.ok),
+                    error=(res.error or "")[:300])
     out = V.parallel(one, todo, n=2)
     for r in out:
-        ctx.log("spec mutant %-18s %-26s -> %s" % (r["mutant"], r["cfg"], r["refuted_by"] or ("NOT refuted" + (" (timeout)" if r["timed_out"] else ""))))
+        how = r["refuted_by"] or ("NOT refuted" + (" (timeout)" if r["timed_out"] else
+                                                   " (instance completed)" if r["completed"] else
+                                                   " (TLC did not finish: %s)" % (r["error"] or "no summary")))
+        ctx.log("spec mutant %-18s %-26s -> %s" % (r["mutant"], r["cfg"], how))
     return out
 
 
@@ -485,7 +489,11 @@ def run_check(ctx, prop):
             return
         model["runs"] = run_families(ctx, fams, workers=4, timeout=300, par=3)
         if not quick:
-            full = [(f, {}) for f in FAMILIES[prop]]
+            # the cfg files as they are; for C01 the three that add something over the bounded runs
+            # (pre-vote + check-quorum with duplication, and the two membership families with the
+            # explicit Ready pipeline = apply lag), so that the stage is one batch of <= 10 min
+            full = [(f, {}) for f in FAMILIES[prop]
+                    if prop != "C01" or f in ("MC_ZRaft_Election_11.cfg", "MC_ZRaft_Conf.cfg", "MC_ZRaft_ConfShrink.cfg")]
             model["runs"] += run_families(ctx, full, workers=5, timeout=600, par=3, suffix="-full")
 
     def do_traces():
